@@ -660,6 +660,21 @@ template <typename A, typename B>
 struct probe_has_common<A, B, probe_void2_t<typename std::common_type<A, B>::type>> : std::true_type {};
 """)
 
+_s("rep_complex", r"""
+        using C = std::complex<double>;
+        using Ci = std::complex<int>;
+        const auto a = seconds(C{3.0, -4.0});
+        const auto ms = a.as(milli(seconds));
+        const auto mins = minutes(C{1.0, 2.0}).as(seconds);
+        const auto sum = a + seconds(C{0.5, 0.5});
+        const auto scaled = a * 2.0;
+        const auto i = seconds(Ci{2, -7}).as(milli(seconds));
+        const auto back = rep_cast<C>(seconds(2.0));
+        std::printf("rep_complex (%.17g,%.17g) (%.17g,%.17g) (%.17g,%.17g) (%.17g,%.17g) (%d,%d) (%.17g,%.17g) %d %zu\n", ms.in(milli(seconds)).real(), ms.in(milli(seconds)).imag(),
+                    mins.in(seconds).real(), mins.in(seconds).imag(), sum.in(seconds).real(), sum.in(seconds).imag(), scaled.in(seconds).real(), scaled.in(seconds).imag(),
+                    i.in(milli(seconds)).real(), i.in(milli(seconds)).imag(), back.in(seconds).real(), back.in(seconds).imag(), int(a == seconds(C{3.0, -4.0})), sizeof(a));
+""", defs="#include <complex>\n")
+
 def names():
     return sorted(SNIPPETS)
 
